@@ -160,6 +160,9 @@ func init() {
 					h.crashCuts(ad)
 					if len(ad.unacked) != 0 || len(ad.items) != 0 {
 						h.viol("C11", "C11.recover", fmt.Sprintf("a worker bound to a recovered adapter left %d pending and %d unacknowledged items", len(ad.items), len(ad.unacked)))
+						if qk == Dist || qk == DistPrio {
+							h.viol("C13", "C13.drain", "items already on the shared adapter when the consumer was bound were not all processed")
+						}
 					}
 				},
 			})
